@@ -397,6 +397,8 @@ func runCfgHash(a Args) *Result {
 		// one long-lived manager (a coordinator or sidecar that is reloaded, not restarted): after every
 		// reload its hash has to be the hash a fresh process computes for the same content
 		longLived := prom.NewConfigManager()
+		var handed []string
+		longLived.AddReloadCallbacks(func(c *prom.ConfigInfo) error { handed = append(handed, c.ConfigHash); return nil })
 		_ = longLived.ReloadFromRaw([]byte(baseText))
 		for _, e := range cfgEdits() {
 			k2 := k
@@ -416,6 +418,26 @@ func runCfgHash(a Args) *Result {
 						res.ImplViol = capViol(res.ImplViol, Violation{Property: "C16", Clause: "history", Signature: "C16/history/" + strings.ReplaceAll(e.Name, " ", "-"),
 							What: fmt.Sprintf("a manager that is reloaded (edit: %s, step %d) reports hash %s, a fresh process computes %s for the same content: the hash depends on what was loaded before", e.Name, step, got, tx.want),
 							Case: map[string]interface{}{"case": map[string]string{"edit": e.Name, "a": baseText, "b": t2}, "observed": map[string]string{"reloaded": got, "fresh": tx.want}}}, 2)
+					}
+				}
+			}
+			// the extra configuration (stop-scrape reason) is not part of the configuration text: setting,
+			// changing and clearing it leaves the hash of the loaded configuration, and what a callback is handed
+			for _, reason := range []string{"stopped by test", "stopped again", ""} {
+				handed = nil
+				if err := longLived.UpdateExtraConfig(prom.ExtraConfig{StopScrapeReason: reason}); err == nil {
+					res.count("long_lived_extra_config_updates")
+					got := longLived.ConfigInfo().ConfigHash
+					bad := got != h0
+					for _, x := range handed {
+						if x != h0 {
+							bad, got = true, x
+						}
+					}
+					if bad {
+						res.ImplViol = capViol(res.ImplViol, Violation{Property: "C16", Clause: "history", Signature: "C16/history/extra-config",
+							What: fmt.Sprintf("after UpdateExtraConfig(stop reason %q) the manager reports / hands to its callbacks hash %q, the loaded configuration has hash %s", reason, got, h0),
+							Case: map[string]interface{}{"case": map[string]string{"edit": "extra config " + reason, "a": baseText, "b": baseText}, "observed": map[string]string{"reloaded": got, "fresh": h0}}}, 2)
 					}
 				}
 			}
